@@ -989,9 +989,14 @@ def _multitenant_sender(repo: Repo, ctx) -> None:
            sample='__sync__(client_id, pickled_schema, invalidation)')
     arm = _if_on(cfc.node.body, 'msg is None')
     va = cfc.node.args.vararg.arg if cfc.node.args.vararg else 'args'
-    ok = arm is not None and [
-        norm(x.value) for x in arm.body if isinstance(x, ast.Assign)] == [
-        f'{va}[0]', f'{va}[1]', f'{va}[2:]']
+    # which local receives which position; the vararg itself is rebound
+    # last (order of the two independent reads does not matter)
+    asg = [(norm(x.targets[0]), norm(x.value)) for x in
+           (arm.body if arm is not None else [])
+           if isinstance(x, ast.Assign) and len(x.targets) == 1]
+    ok = arm is not None and dict(asg) == {
+        'methname': f'{va}[0]', 'dbname': f'{va}[1]', va: f'{va}[2:]'} \
+        and len(asg) == 3 and asg[-1][0] == va
     ctx.ob('C17.R1', 'multitenant_worker.call_for_client:direct-arm', ok,
            'direct arm does not unpack (methname, dbname, rest) from the '
            'positions the pool sends them in', cfc.loc,
